@@ -39,6 +39,10 @@ Full statement / proved / missing
                          (`%#07x` of 256 is `0x0000100`; known finding C20-go-fmt-alt-zeropad).
 * `C20_radix_back`     — letters d x X o b B: `readRadix` of the rendering is the integer, for ALL integers and
                          directives (the two classes above included), except 0 with precision 0 for d x X o.
+* `C20_ctor_back_full` — the same round trip through pcore's own Integer constructor `new(Integer, text, radix)` is FALSE:
+                         `C20_ctor_back_fails` (known finding C20-integer-ctor-text: hexadecimal digits without a
+                         prefix, any radix prefix, zero-padded decimals with 8/9 are not read back); the constructor
+                         (`newInteger`: signature pattern + strconv.ParseInt) is modelled and compared (op `back`).
 * `C20_width`          — scalars: at least `w` runes wide (letters whose digits come from fmt's float code excluded).
 * `C20_pad_side_text`, `C20_pad_side_pbB`, `C20_pad_side_int` — blanks on the left unless `-`; zeros only from fmt's
                          integer code (between sign/prefix and digits, by `C20_int_ref_partial`) and the b/B precision.
@@ -290,6 +294,30 @@ example : readRadix 'x' "  -0x00ff ".toList = some (-255) ∧ readRadix 'b' "0b-
     readRadix 'b' "   -0b000101".toList = some (-5) := by decide +kernel
 /-- the excluded case is real: `%.0d` of 0 is empty -/
 example : formatDirective io0 "%.0d".toList (.int 0) = .text [] ∧ readRadix 'd' [] = none := by decide +kernel
+
+/-! ### … and through pcore's own Integer constructor `new(Integer, text, radix)` -/
+
+/-- the full statement: every unpadded radix rendering of an Int64 is read back by `new(Integer, text, radix)` with
+    the radix of the letter -/
+def C20_ctor_back_full : Prop := ∀ (io : FloatIO) (d : Str) (f : Fmt) (i : Int), Directive d f →
+  isRadixLetter f.letter = true → f.width = none → f.plus ≠ some ' ' → -(2^63 : Int) ≤ i → i < 2^63 →
+  ¬ (i = 0 ∧ f.prec = some 0 ∧ isIntLetter f.letter = true) →
+  ∃ s, formatDirective io d (.int i) = .text s ∧ newInteger s (letterRadix f.letter) = .int i
+
+/-- known finding C20-integer-ctor-text: `%x` of 255 renders "ff", which the constructor's signature rejects; `%#b`
+    of 5 renders "0b101", which strconv.ParseInt with radix 2 rejects; `%.3d` of 8 renders "008", rejected as well -/
+theorem C20_ctor_back_fails : ¬ C20_ctor_back_full := by
+  intro h
+  obtain ⟨s, hs, hn⟩ := h io0 "%x".toList (parsed "%x") 255 (by decide +kernel) (by decide +kernel) (by decide +kernel)
+    (by decide +kernel) (by decide +kernel) (by decide +kernel) (by decide +kernel)
+  have h1 : formatDirective io0 "%x".toList (.int 255) = .text "ff".toList := by decide +kernel
+  rw [h1] at hs; cases hs
+  revert hn; decide +kernel
+
+example : newInteger "0b101".toList 2 = .reported .notInteger ∧ newInteger "008".toList 10 = .reported .illegalArguments ∧
+    newInteger "ff".toList 16 = .reported .illegalArguments ∧ newInteger "-0377".toList 8 = .int (-255) ∧
+    newInteger "101".toList 2 = .int 5 ∧ newInteger "-9223372036854775808".toList 10 = .int (-9223372036854775808) ∧
+    newInteger "9223372036854775808".toList 10 = .reported .notInteger := by decide +kernel
 
 /-! ## width and padding side -/
 
